@@ -425,7 +425,31 @@ def gen_config(rng, **force):
     if r < 0.7: cfg["co2"] = None
     elif r < 0.85: cfg["co2"] = {"constant_conc": True}
     else: cfg["co2"] = {"constant_conc": True, "current_concentration": float(rng.choice([300, 369.41, 450, 700, 2100]))}
+    _more_dimensions(cfg, random.Random(rng.random()), force)
     return cfg
+
+
+def _more_dimensions(cfg, rng, force):
+    """further configuration dimensions, drawn from a separate stream so that the draws above are unchanged: a minimum rooting depth other
+    than the catalogue's 0.3 m, a fully specified FALLOW field management (bunds, mulches, curve-number adjustment, runoff inhibition), and
+    parameters of SWITCHED-OFF features set to non-default values in either field management (inert by C20)"""
+    if "crop_kwargs" not in force and rng.random() < 0.15:
+        cfg["crop"]["kwargs"]["Zmin"] = rng.choice([0.2, 0.4])
+    if "fallow_field" not in force and rng.random() < 0.2:
+        f = {}
+        if rng.random() < 0.4: f.update(bunds=True, z_bund=rng.choice([0.05, 0.15]), bund_water=float(rng.choice([0, 0, 30])))
+        if rng.random() < 0.4: f.update(mulches=True, mulch_pct=rng.choice([0, 40, 100]), f_mulch=rng.choice([0, 0.5, 1.0]))
+        if rng.random() < 0.2: f["sr_inhb"] = True
+        if rng.random() < 0.4: f.update(curve_number_adj=True, curve_number_adj_pct=rng.choice([-20, -5, 10]))
+        cfg["fallow_field"] = f or None
+    for key in ("field", "fallow_field"):
+        if key in force or rng.random() >= 0.2:
+            continue
+        f = dict(cfg.get(key) or {})
+        if not f.get("mulches") and rng.random() < 0.6: f.update(mulch_pct=rng.choice([30, 80]), f_mulch=rng.choice([0.3, 0.9]))
+        if not f.get("bunds") and rng.random() < 0.6: f.update(z_bund=rng.choice([0.1, 0.3]), bund_water=float(rng.choice([0, 25])))
+        if not f.get("curve_number_adj") and rng.random() < 0.6: f["curve_number_adj_pct"] = rng.choice([-30, -10, 15, 40])
+        cfg[key] = f or None
 
 
 # configurations known (DESIGN 7.4) to crash or hang for reasons unrelated to most properties; monitors that
